@@ -133,7 +133,7 @@ def gen(rng: Any, prop: str, tier: str) -> dict[str, Any]:
                 nop.append(p)
     return {
         "profile": NAME,
-        "config": {"nop": nop, "pre": pre, "hazards": hz, "dict": rng.random() < 0.25, "return_cursors": rng.random() >= 0.2, "lead": rng.choice(["", "\n", "-- leading comment\n", "/* lead */ "]) if n else rng.choice(["-- only a comment", "/* nothing */", "  ", ";"])},
+        "config": {"nop": nop, "pre": pre, "hazards": hz, "dict": rng.random() < 0.25, "return_cursors": rng.random() >= 0.2, "reuse_cursor": rng.random() < 0.4, "lead": rng.choice(["", "\n", "-- leading comment\n", "/* lead */ "]) if n else rng.choice(["-- only a comment", "/* nothing */", "  ", ";"])},
         "stmts": stmts,
         "glue": glue,
         "ops": [],
@@ -161,13 +161,16 @@ def _world(sim: core.Sim, cfg: dict[str, Any], with_nop: bool) -> tuple[World, A
     return w, conn
 
 
-def _one_by_one(conn: Any, stmts: list[str], dict_cursor: bool) -> tuple[list[Any], dict[str, Any] | None]:
+def _one_by_one(conn: Any, stmts: list[str], dict_cursor: bool, reuse: bool = False) -> tuple[list[Any], dict[str, Any] | None]:
+    """The statements one at a time: each on a fresh cursor, or (reuse) all on one cursor whose previous result was fetched."""
     from snowflake.connector.cursor import DictCursor, SnowflakeCursor
 
     results = []
+    cur = None
     for sql in stmts:
         try:
-            cur = conn.cursor(DictCursor if dict_cursor else SnowflakeCursor)
+            if cur is None or not reuse:
+                cur = conn.cursor(DictCursor if dict_cursor else SnowflakeCursor)
             cur.execute(sql)
             results.append({"rows": norm_rows(cur.fetchall()), "rowcount": cur.rowcount})
         except BaseException as e:  # noqa: BLE001
@@ -208,7 +211,7 @@ def run(case: dict[str, Any]) -> dict[str, Any]:
             err_a = exc_record(e)
         # world B: one by one
         sim.set_session("B")
-        res_b, err_b = _one_by_one(cb, stmts, cfg["dict"])
+        res_b, err_b = _one_by_one(cb, stmts, cfg["dict"], reuse=bool(cfg.get("reuse_cursor")))
         sim.set_session("main")
         matched = [i for i, s in enumerate(stmts) if matches(cfg["nop"], s)]
         fail_idx = [i for i, s in enumerate(case["stmts"]) if s["kind"] == "fail"]
@@ -247,7 +250,7 @@ def run(case: dict[str, Any]) -> dict[str, Any]:
                 worlds.append(wc)
             upto = len(res_b) + (1 if err_b else 0)
             plain = [s for i, s in enumerate(stmts[:upto]) if i not in matched]
-            res_c, err_c = _one_by_one(cc, plain, cfg["dict"])
+            res_c, err_c = _one_by_one(cc, plain, cfg["dict"], reuse=bool(cfg.get("reuse_cursor")))
             ok_row = [["Statement executed successfully."]]
             for i in matched:
                 if i < len(res_b):
